@@ -93,6 +93,10 @@ def world_spec(draw, connected=True, prod=False, chainy=False, nunits=(2, 5), ke
             item["orphan_to"] = _choose(draw, peers) if peers and draw(ST_BOOL) else None
         ext.append(item)
     spec = {"fams": fams, "ext": ext}
+    # how the declarations are written: ratios as Decimal, the defined unit under a prefix
+    # ((Kilo * a).equals(...)); both are ordinary uses of the public API
+    spec["decimal_ratios"] = draw(_int(0, 9)) < 2
+    spec["lhs_prefix"] = draw(_int(0, 9)) < 3
     if prod:
         n1 = len(fams[1]["sizes"])
         spec["prod"] = [
@@ -117,9 +121,15 @@ def prod_names(spec):
     return [f"Y{y}" for y in range(len(spec.get("prod", [])))]
 
 
-def _mag(r: Fraction):
+def _mag(r: Fraction, decimal=False):
     if r.denominator == 1:
         return int(r)
+    if decimal:
+        from decimal import Decimal, localcontext
+
+        with localcontext() as ctx:
+            ctx.prec = 40
+            return Decimal(r.numerator) / Decimal(r.denominator)
     return float(r)
 
 
@@ -200,11 +210,16 @@ class SynWorld:
             self.size[a] = self.size[a] * factor
         rhs = self.build(rhs_terms)
         r = self.size[a] / self.terms_size(rhs_terms)
+        dec = bool(self.spec.get("decimal_ratios"))
         single_plain = len(rhs_terms) == 1 and rhs_terms[0][0] == "" and rhs_terms[0][2] == 1
+        lhs, lhs_factor = self.units[a], Fraction(1)
+        if self.spec.get("lhs_prefix") and (self.declared % 3 == 1):
+            # the unit being defined is written with a prefix:  (kilo * a).equals(...)
+            lhs, lhs_factor = self.pfx["kilo"] * self.units[a], Fraction(1000)
         if flip and single_plain:
-            self.units[rhs_terms[0][1]].equals(_mag(1 / r) * self.units[a])
+            self.units[rhs_terms[0][1]].equals(_mag(1 / r, dec) * self.units[a])
         else:
-            self.units[a].equals(_mag(r) * rhs)
+            lhs.equals(_mag(r * lhs_factor, dec) * rhs)
         self.declared += 1
 
 
